@@ -1204,6 +1204,23 @@ def r7_render_sibling_stores(run):
     for f in sibs:
         run.use(f)
         blocks = _render_stores(p, f)
+        if not blocks:
+            # the whole block, test included, moved into a method of the same response object
+            # (k2-c12-2: `data = self._render_media()`): read it there
+            seen_h: Set[str] = set()
+            for c in walk_no_nested(f.node):
+                if not (isinstance(c, ast.Call) and isinstance(c.func, ast.Attribute) and isinstance(c.func.value, ast.Name)):
+                    continue
+                if c.func.value.id == 'self':
+                    t = p.callee(f, c)
+                    hs = [t] if isinstance(t, Func) else []
+                else:
+                    hs = [m for m in (p.lookup_method(cq, c.func.attr) for cq in _RESPONSE_CLASSES) if isinstance(m, Func)]
+                for h in hs:
+                    if h.qual not in seen_h and h.cls is not None and h.cls.qual in _RESPONSE_CLASSES:
+                        seen_h.add(h.qual)
+                        run.use(h)
+                        blocks += _render_stores(p, h)
         if len(blocks) != 1:
             raise UnknownIdiom('%s: expected one `_media_rendered is _UNSET` block, found %d' % (f.qual, len(blocks)))
         found[f.qual] = blocks[0]
